@@ -48,4 +48,37 @@ def Vector_na_dtype (truth : Term → Bool) : Out :=
           else
             Out.ret [] (Term.sym "object")
 
+/-- dataiter/vector.py: Vector.is_na (sha256 of the function source: 489b24035d441d9d) -/
+def Vector_is_na (truth : Term → Bool) : Out :=
+  if truth (Term.app ".is_datetime" [(Term.sym "self")]) then
+    Out.ret [] (Term.app "np.isnat" [(Term.sym "self")])
+  else
+    if truth (Term.app ".is_timedelta" [(Term.sym "self")]) then
+      Out.ret [] (Term.app "np.isnat" [(Term.sym "self")])
+    else
+      if truth (Term.app ".is_float" [(Term.sym "self")]) then
+        Out.ret [] (Term.app "np.isnan" [(Term.sym "self")])
+      else
+        if (truth (Term.app ".is_string" [(Term.sym "self")]) || truth (Term.app "._is_string_fixed" [(Term.sym "self")])) then
+          Out.ret [] (Term.app "Eq" [(Term.sym "self"), (Term.sym "dtypes.string.na_object")])
+        else
+          Out.ret [] (Term.app ".fast" [(Term.sym "self"), (Term.sym "[x is None for x in self]"), (Term.sym "bool")])
+
+/-- dataiter/vector.py: Vector.drop_na (sha256 of the function source: 94a4d2b6c906399e) -/
+def Vector_drop_na (truth : Term → Bool) : Out :=
+  Out.ret [] (Term.app ".copy" [(Term.app "getitem" [(Term.sym "self"), (Term.app "~" [(Term.app ".is_na" [(Term.sym "self")])])])])
+
+/-- dataiter/vector.py: Vector.tolist (sha256 of the function source: 6c6b05c5c3a558ee) -/
+def Vector_tolist (truth : Term → Bool) : Out :=
+  Out.ret [] (Term.app "np.where(self.is_na(), None, self).tolist" [])
+
+/-- dataiter/vector.py: Vector.equal (sha256 of the function source: e933f960452bc821) -/
+def Vector_equal (truth : Term → Bool) (self_length : Int) (other_length : Int) : Out :=
+  if (!(truth (Term.app "isinstance" [(Term.sym "other"), (Term.sym "Vector")]) && decide (self_length = other_length) && truth (Term.app "Eq" [(Term.app "str" [(Term.app ".na_value" [(Term.sym "self")])]), (Term.app "str" [(Term.app ".na_value" [(Term.sym "other")])])]))) then
+    Out.ret [] (Term.sym "False")
+  else
+    let ii' : Term := (Term.app ".is_na" [(Term.sym "self")]);
+    let jj' : Term := (Term.app ".is_na" [(Term.sym "other")]);
+    Out.ret [] (Term.app "And" [(Term.app "np.all" [(Term.app "Eq" [ii', jj'])]), (Term.app "np.all" [(Term.app "Eq" [(Term.app "getitem" [(Term.sym "self"), (Term.app "~" [ii'])]), (Term.app "getitem" [(Term.sym "other"), (Term.app "~" [jj'])])])])])
+
 end DI.Gen
